@@ -147,5 +147,5 @@ class ConfigManager(object):
         if dest is None:
             StorageTools.writeProfileConfig(profile_name, outputdata)
         else:
-            with open(dest, 'wb') as outputfile:
+            with open(dest, 'w') as outputfile:
                 outputfile.write(outputdata)
